@@ -27,7 +27,7 @@ func init() {
 			"an error returned by Format is acceptable (counted per class); only outputs returned without error are judged",
 			"comments are found by an own lexical scanner (cross-checked against the lexer's comment tokens; disagreeing sources are skipped and counted)",
 			"comment text is compared modulo layout: trailing whitespace of line comments and the indentation / trailing whitespace of block-comment lines are not text",
-			"AST comparison as in C38 (AST JSON without position keys and doc strings); with SortImports the import declarations are compared as a multiset",
+			"AST comparison as in C38 (AST JSON without position keys and doc strings, reflective pre-check cross-checked against it); with SortImports the import declarations are compared as a multiset",
 		},
 		NumCases: func(tier string) int {
 			if tier == "thorough" {
@@ -283,7 +283,7 @@ func evalC39(src []byte, o fmtOpts) (res c39Result) {
 			s1, s2 = sortImports(s1), sortImports(s2)
 		}
 		jsonEqual := canon(s1) == canon(s2)
-		if jsonEqual != (r1 == r2) {
+		if !jsonEqual && r1 == r2 { // the pre-check must never hide a difference the JSON oracle sees
 			reflectJSONDisagree++
 			reflectJSONExample = fmt.Sprintf("json_equal=%v reflect_equal=%v options=%s source=%q output=%q", jsonEqual, r1 == r2, o, clipS(string(src), 1500), clipS(string(out), 1500))
 		}
